@@ -113,7 +113,7 @@ def _merge_coverage_check(result):
 
 PROPS["C19"] = {
     "components": [Seq("merge", 14, 140)],
-    "generated": ["mergeprogs"],
+    "generated": ["mergeprogs"], "exhaustive": True,
     "rule": "merge: for every config type with an exported Merge entry point (nested types through circuit.Config), the per-field table — every exported leaf field x {unset,set} on both sides, other leaves random — plus random whole-struct combinations, run through the REAL Merge by reflection and through the regenerated MergeLang program; "
             "every case is non-trivial (each op sets/unsets a designated field); distinct by FNV hash. The per-field table is enumerated completely on every run.",
     "trusted_base": TB_COMMON + ["the translator tools/extract/mergeprogs (go/ast, ~300 lines; unrecognised statements become .opaque, which the verified checker rejects) — guarded by the reflection differential",
